@@ -29,6 +29,10 @@ func runC01(w *World) *Result {
 	OpTableRule(w, bash, r, "R-C01-optable")
 	AllocRule(w, bash, r, "R-C01-alloc")
 	PopRule(w, "bash", r, "R-C01-alloc", "ForStart", "IfStart")
+	r.Rule("R-C01-drop", "a node assembled field by field in a parser loop (switch → if-chain) is never replaced as a whole inside that loop", 1)
+	DropRule(w, r, "R-C01-drop")
+	r.Rule("R-C01-sign", "a minus directly after an operand is the binary operator: the lexer's previous-token set holds every token type that can end an integer operand", 2)
+	SignRule(w, r, "R-C01-sign")
 	r.Rule("R-C01-numcmp", "Bash test commands order numbers with -lt/-le/-gt/-ge, never with < or > (text order)", 3)
 	BashTestOrderRule(w, bash, r, "R-C01-numcmp", func(l *Line) bool { return l.Em.Helper == "" })
 	ExitRule(w, bash, batch, r, "R-C01-exit")
